@@ -554,7 +554,8 @@ def syn_class():
             multi, n_sub = bool(shape.get("multi")), 2
 
             def mlp(n_out):
-                return EvolvableMLP(n_obs, n_out, hidden_size=[32], min_mlp_nodes=8, max_mlp_nodes=128, device=device)
+                return EvolvableMLP(n_obs, n_out, hidden_size=[32, 32] if shape.get("deep") else [32], min_mlp_nodes=8,
+                                    max_mlp_nodes=128, device=device)
 
             # networks: policy first, then the extra evaluation groups, each followed by its target
             if multi:
@@ -696,19 +697,40 @@ def syn_shapes():
     return out
 
 
+def deep_net_config(algo: str, fam: str) -> dict:
+    """the smallest networks with TWO hidden layers everywhere, so that node / channel mutations have a
+    layer to choose (incl. layer 0)"""
+    import agents as A
+    cfg = A.default_net_config(algo, fam)
+
+    def deepen(c):
+        for k, v in list(c.items()):
+            if k in ("hidden_size",) and isinstance(v, list):
+                c[k] = [v[0], v[0]]
+            elif k in ("channel_size", "kernel_size", "stride_size") and isinstance(v, list):
+                c[k] = [v[0], v[0]]
+            elif isinstance(v, dict):
+                deepen(v)
+    deepen(cfg)
+    return cfg
+
+
 def build_population(case: dict):
     import agents as A
     algo, fam = case["algo"], case["family"]
+    idx = case.get("indices") or list(range(case["size"]))
     if algo == SYN:
-        return [syn_build(case, i) for i in range(case["size"])]
+        return [syn_build(case, idx[i]) for i in range(case["size"])]
     pop = []
     for i in range(case["size"]):
         kw = {}
         if algo in ("DDPG", "TD3", "MADDPG", "MATD3"):
             # distinct float objects (see known finding C06-lr-name-by-identity)
             kw = dict(lr_actor=float("0.0001220703125"), lr_critic=float("0.0009765625"))
+        if case.get("deep"):
+            kw["net_config"] = deep_net_config(algo, fam)
         ag = A.build(algo, fam, seed=case["seed"] + 17 * i, share_encoders=case.get("share"),
-                     hp_config=make_hp_config(algo, case.get("hps")), index=i, **kw)
+                     hp_config=make_hp_config(algo, case.get("hps")), index=idx[i], **kw)
         pop.append(ag)
     return pop
 
@@ -782,7 +804,8 @@ def run_history(chk: Check, case: dict, mode: str = "repaired") -> dict:
                     changes = {}
                     before_state = [opt_state_sizes(ag) for ag in pop]
                     before_sync = [targets_in_sync(ag) for ag in pop]
-                    m = Mutations(no_mutation=probs[0], architecture=probs[1], new_layer_prob=0.5, parameters=probs[2],
+                    m = Mutations(no_mutation=probs[0], architecture=probs[1],
+                                  new_layer_prob=op[5] if len(op) > 5 else 0.5, parameters=probs[2],
                                   activation=probs[3], rl_hp=probs[4], mutation_sd=0.1, rand_seed=mseed,
                                   mutate_elite=elite, device="cpu")
                     rec.wrap_mutations(m)
@@ -794,6 +817,18 @@ def run_history(chk: Check, case: dict, mode: str = "repaired") -> dict:
                         problems.append(f"{where}: mutation returned {len(out)} agents for {len(pop)}")
                     elif [ag.index for ag in out] != before_idx:
                         problems.append(f"{where}: indices {before_idx} became {[ag.index for ag in out]}")
+                    # ---- oracle: output[i] is the mutated input[i]: pairwise distinct agents, in the order given
+                    if len({id(x) for x in out}) != len(out):
+                        dup = [[j for j, y in enumerate(out) if y is x] for x in out]
+                        problems.append(f"{where}: the returned population holds the same agent object at positions "
+                                        f"{max(dup, key=len)} (input indices {before_idx}): agents were lost")
+                    else:
+                        for i, x in enumerate(out):
+                            j = next((j for j, y in enumerate(pop) if y is x), None)
+                            if j is not None and j != i:
+                                problems.append(f"{where}: position {i} of the returned population is input agent {j} "
+                                                f"(input indices {before_idx}): order not preserved")
+                                break
                     pop = list(out)
                     choices = []
                     for i, ag in enumerate(pop):
@@ -1001,7 +1036,7 @@ def case_list(chk: Check):
     for f in sorted((ROOT / "corpus" / "C02").glob("*.json")):
         c = json.loads(f.read_text())
         c = c.get("replay", c)
-        cases.append({k: c[k] for k in ("algo", "family", "share", "seed", "size", "ops", "shape") if k in c} |
+        cases.append({k: c[k] for k in ("algo", "family", "share", "seed", "size", "ops", "shape", "deep", "indices") if k in c} |
                      ({"hps": c["hps"]} if c.get("hps") else {}) | {"origin": f.name})
     quick = chk.tier == "quick"
     for algo in A.ALGOS:
@@ -1044,6 +1079,30 @@ def case_list(chk: Check):
         ops += [["mutate", list(UNIT["arch"]), 0, rng.randrange(1 << 16), 1], ["learn", 0, rng.randrange(1 << 16)]]
         cases.append({"algo": SYN, "family": "vector", "share": None, "seed": rng.randrange(1 << 20), "size": size,
                       "shape": sh, "ops": ops})
+    # networks with two hidden layers everywhere + node mutations in a row: the layer the policy draws
+    # (incl. layer 0) must be the layer every co-trained network changes
+    arch_node = lambda: ["mutate", list(UNIT["arch"]), 0, rng.randrange(1 << 16), 1, 0.1]
+    deep_syn = [{"pt": True, "extras": [True, True], "opt": "per-net", "lr": "separate", "multi": True, "deep": True},
+                {"pt": False, "extras": [True, False], "opt": "joint", "lr": "separate", "multi": False, "deep": True}]
+    for sh in deep_syn:
+        cases.append({"algo": SYN, "family": "vector", "share": None, "seed": rng.randrange(1 << 20), "size": 2,
+                      "shape": sh, "ops": [arch_node() for _ in range(5 if quick else 10)] + [["learn", 0, rng.randrange(1 << 16)]]})
+    for algo in (rng.sample(["DDPG", "TD3", "PPO", "MADDPG", "MATD3", "IPPO"], k=3) if quick else
+                 ["DDPG", "TD3", "PPO", "MADDPG", "MATD3", "IPPO"]):
+        cases.append({"algo": algo, "family": "vector", "share": None, "seed": rng.randrange(1 << 20), "size": 2,
+                      "deep": True, "ops": [arch_node() for _ in range(4 if quick else 8)] + [["learn", 1, rng.randrange(1 << 16)]]})
+    # populations whose indices are duplicated (clones keep the parent's index), unordered, non-contiguous
+    idx_algos = [("DQN", None), ("IPPO", None), (SYN, rng.choice(shapes))] + ([] if quick else [("TD3", None), ("PPO", None)])
+    for k, (algo, sh) in enumerate(idx_algos):
+        indices = [[4, 4, 4], [7, 2, 7], [9, 3, 5]][k % 3] if k < 3 else rng.choice([[1, 1, 0], [6, 6, 6]])
+        c = {"algo": algo, "family": "vector", "share": None, "seed": rng.randrange(1 << 20), "size": 3,
+             "indices": indices,
+             # mutated as given first (tournament selection hands out fresh indices to its clones)
+             "ops": [["mutate", gen_probs(rng), int(rng.random() < 0.5), rng.randrange(1 << 16), 1],
+                     ["learn", rng.randrange(3), rng.randrange(1 << 16)]] + gen_ops(rng, 1, 3, rng.choice(KINDS))}
+        if sh:
+            c["shape"] = sh
+        cases.append(c)
     # other observation families
     fams = ["image", "dict", "discrete", "tuple"]
     extra = 5 if quick else 16
@@ -1116,10 +1175,13 @@ def report(chk: Check, case: dict, res: dict, do_shrink: bool = True) -> None:
 
 def syn_tags(case: dict) -> list:
     sh = case.get("shape")
+    extra = (["deep-nets"] if case.get("deep") or (sh or {}).get("deep") else []) + \
+        (["indices-" + ("duplicate" if len(set(case["indices"])) < len(case["indices"]) else "unordered")]
+         if case.get("indices") else [])
     if not sh:
-        return []
+        return extra
     return [f"syn-policy-{'target' if sh['pt'] else 'no-target'}", f"syn-extras-{''.join('T' if t else 'n' for t in sh['extras']) or '0'}",
-            f"syn-opt-{sh['opt']}", f"syn-lr-{sh['lr']}", f"syn-{'multi' if sh['multi'] else 'single'}"]
+            f"syn-opt-{sh['opt']}", f"syn-lr-{sh['lr']}", f"syn-{'multi' if sh['multi'] else 'single'}"] + extra
 
 
 def pre_gate(chk: Check) -> None:
@@ -1154,7 +1216,7 @@ def run(chk: Check) -> None:
         res = run_history(chk, case)
         kinds = {t for t in res["tags"] if t.startswith("kind-") and t != "kind-none"}
         chk.case([case["algo"], case["family"], case.get("share"), case["seed"], case["ops"], case.get("hps"),
-                  case.get("shape")],
+                  case.get("shape"), case.get("deep"), case.get("indices")],
                  nontrivial=bool(kinds) and "learn" in res["tags"],
                  sample={"algo": case["algo"], "family": case["family"], "share_encoders": case.get("share"),
                          "size": case["size"], "ops": case["ops"][:5]},
@@ -1294,7 +1356,7 @@ def selftest(chk: Check) -> None:
 def replay(chk: Check, path: str) -> int:
     c = json.loads(open(path).read())
     c = c.get("replay", c)
-    case = {k: c[k] for k in ("algo", "family", "share", "seed", "size", "ops", "hps", "shape") if k in c}
+    case = {k: c[k] for k in ("algo", "family", "share", "seed", "size", "ops", "hps", "shape", "deep", "indices") if k in c}
     case.setdefault("share", None)
     res = run_history(chk, case)
     d = res["diff"]
